@@ -206,7 +206,7 @@ PROPS = {
         level_text="Coq theorems about process-local stores (pkg/process/local.go) and the per-process endpoint maps of ports, modelled at LOCK granularity (every Lock/RLock, critical section, Unlock and call of user code is one step of a thread; a history is any interleaving of any number of threads calling Store / Load / Delete / LoadOrStore / AddStoreHook / RemoveStoreHook / Keys / Close / port Open / port Close / AddExitHook / Exit): no reachable state is a deadlock (unless all threads have returned some thread can step); locks exclude; the initialiser of a lazy cell runs at most once and a process sees at most one run more than its entry was deleted; in every state where all threads have returned a terminated process has no value, lazy cell, waiter list or port endpoint left. The pinned Store (exit hook registered with the store's lock held) is kept in the model with the 3-step wedge as a theorem. Tied to the code by driving a real Local[int], real ports and processes from 2-3 worker goroutines that are held inside every user callback, so that other workers' operations and Exit land between any two critical sections; after each step worker states (returned / held / waiting for a mutex, read off the goroutine dump), map sizes, running processes and the workers' logs are compared with the model. PARTIAL: tracer tables, the debug agent and goroutines are not modelled; they are measured: workloads on a real workflow (with and without the agent, requests abandoned at random points) followed by the exit of every process must leave every port map, both tracers, the agent's process and frame lists empty and the engine's goroutine count back at its starting value within 3 s. Also proved: the tracer of a node holds nothing (no queue, slot or link) once every request it read is answered and no written packet is outstanding, for every disciplined call sequence (C02).",
         level_note="Partial as stated. Trusted: Coq kernel + vm_compute; hand transcription of local.go, InPort.Open/Close, OutPort.Open/Close, Process.Exit/AddExitHook (flip and hook list only) into theories/Process/Local.v; critical sections are atomic steps between Lock and Unlock (the lock discipline itself is what the no-deadlock and exclusion theorems are about); user code is assumed to return and not to call back into the same store. The harness holds goroutines only inside user code, so finer interleavings are covered by the theorems, not by the correspondence.",
         technique="Coq invariant proofs over all interleavings at lock granularity (well-formed continuations => no deadlock; lock exclusion; single-flight counting; cleanup-coverage invariant => no residue) + vm_compute correspondence under forced interleavings + direct residue / goroutine oracle on real workflows",
-        quick_n=250, thorough_n=2000, shard=50, mismatch_is_failure=True,
+        quick_n=250, thorough_n=1200, shard=50, mismatch_is_failure=True,
         assumptions=["user callbacks return and do not re-enter the same store", "critical sections of Process (status flip, hook registration) are atomic (C04, C20)", "process indices with store hooks never have two LoadOrStore calls waiting on one cell (which of them stores first is scheduler-dependent and not observable otherwise)"],
         trusted_base=["pkg/process/local.go, pkg/port/inport.go (Open, Close), pkg/port/outport.go (Open, Close), pkg/process/process.go (Exit, AddExitHook) transcribed by hand into theories/Process/Local.v", COMMON_MODEL, "verif hooks: VerifLen on Local, InPort, OutPort, Tracer; VerifTracer on the node kinds"],
     ),
